@@ -112,6 +112,17 @@ AssignRecs(c, recs) == IF recs = <<>> THEN c
                        ELSE AssignRecs(IF Head(recs).ep > LatestEpoch(c)
                                        THEN Assign(c, Head(recs).ep, Head(recs).off) ELSE c, Tail(recs))
 
+\* Rebase(from, off) (repair 3ee1c3a): the entries of the live cache that start at or
+\* after off (sort.Search over the start offsets) are carried over when their epoch
+\* is newer than what the receiving cache knows
+RECURSIVE RebaseFold(_, _)
+RebaseFold(c, xs) == IF xs = <<>> THEN c
+                     ELSE RebaseFold(IF Head(xs).e > LatestEpoch(c) THEN Assign(c, Head(xs).e, Head(xs).s) ELSE c,
+                                     Tail(xs))
+RebaseCache(c, from, off) ==
+  LET i == Search([j \in 1..Len(from) |-> from[j].s >= off])
+  IN RebaseFold(c, SubSeq(from, i, Len(from)))
+
 -----------------------------------------------------------------------------
 (* segments in memory *)
 
@@ -358,8 +369,8 @@ CompactFold(f, rem, all, hw, i, acc) ==
         cleaned |-> IF empty THEN acc.cleaned ELSE Append(acc.cleaned, SegOf(sg.base, Reindexed(newlog, newidx))),
         cache |-> AssignRecs(acc.cache, keep)])
 
-\* Clean(): retention (newest deletable segment first, as the code collects
-\* them), then compaction of all but the last remaining segment, then the
+\* Clean(): retention (the doomed segments oldest first - repair 299fb79; before it
+\* the newest deletable segment went first), then compaction of all but the last remaining segment, then the
 \* in-memory swap and the epoch cache update
 \* lastWriteTime of a segment: the timestamp of its last index entry (setupIndex
 \* restores it from there on open; 0 for an empty segment)
@@ -381,14 +392,18 @@ PlanClean(f, m) ==
       kf == KeepFrom(f, segs)
       retPlan == agePlan \o
                  Flat([j \in 1..(kf - 1) |->
-                        DeletePlan(Key(segs[kf - j].base, "")) \o <<CP("retention.after_delete_segment")>>])
+                        DeletePlan(Key(segs[j].base, "")) \o <<CP("retention.after_delete_segment")>>])
       rem == SubSeq(segs, kf, n)
       doCompact == cfg.compact /\ Len(rem) > 1
       all == Flat([j \in 1..Len(rem) |->
                     RecsOf(ScanIdx(Get(f.lf, Key(rem[j].base, "")), Get(f.xf, Key(rem[j].base, "")), 1))])
       cf == CompactFold(f, rem, all, m.hw, 1, [plan |-> <<>>, cleaned |-> <<>>, cache |-> <<>>])
       lastRecs == RecsOf(ScanIdx(Get(f.lf, Key(Last(rem).base, "")), Get(f.xf, Key(Last(rem).base, "")), 1))
-      cache == AssignRecs(cf.cache, lastRecs)
+      \* the cache compaction built from the records it scanned, plus (3ee1c3a) every live
+      \* entry that is newer than what it saw (an epoch recorded by NewLeaderEpoch has
+      \* no record of its own yet)
+      cache0 == AssignRecs(cf.cache, lastRecs)
+      cache == RebaseCache(cache0, m.ep, LatestStart(cache0))
       newsegs == IF doCompact THEN Append(cf.cleaned, Last(rem)) ELSE rem
       epochPlan == IF doCompact
                    THEN <<[i |-> "mep", v |-> cache], CP("epoch.before_flush"), [i |-> "wep"]>>
